@@ -100,8 +100,13 @@ func c20Doc(r *rng.R, allowMeta bool, keepTight int, boundaries map[string]int, 
 		case k < 2:
 			lvl := r.Range(1, 6)
 			t, _ := mk(fmt.Sprintf("heading%d", lvl), false)
-			d.AddHeadingParagraph(t.text, lvl)
+			hp := d.AddHeadingParagraph(t.text, lvl)
 			toks = append(toks, t)
+			if hp != nil && r.Chance(1, 4) { // a formatted run in the heading
+				t2, f2 := mk(fmt.Sprintf("heading%d", lvl), true)
+				hp.AddFormattedText(" "+t2.text, f2)
+				toks = append(toks, t2)
+			}
 			blocks = append(blocks, t.block)
 		case k < 6:
 			var p *document.Paragraph
@@ -152,9 +157,15 @@ func c20Doc(r *rng.R, allowMeta bool, keepTight int, boundaries map[string]int, 
 			}
 			blocks = append(blocks, "para")
 		case k == 6:
-			t, _ := mk("quote", false)
-			d.AddParagraph(t.text).SetStyle("Quote")
+			t, f := mk("quote", r.Bool())
+			qp := d.AddFormattedParagraph(t.text, f)
+			qp.SetStyle("Quote")
 			toks = append(toks, t)
+			for i, m := 0, r.Intn(3); i < m; i++ { // further runs of other formats in the same quote
+				t2, f2 := mk("quote", true)
+				qp.AddFormattedText(" "+t2.text, f2)
+				toks = append(toks, t2)
+			}
 			blocks = append(blocks, "quote")
 		case k == 7:
 			for i, m := 0, r.Range(1, 3); i < m; i++ {
@@ -166,8 +177,13 @@ func c20Doc(r *rng.R, allowMeta bool, keepTight int, boundaries map[string]int, 
 		case k == 8:
 			for i, m := 0, r.Range(1, 3); i < m; i++ {
 				t, _ := mk("list", false)
-				d.AddBulletList(t.text, 0, document.BulletTypeDot)
+				lp := d.AddBulletList(t.text, 0, document.BulletTypeDot)
 				toks = append(toks, t)
+				if lp != nil && r.Chance(1, 3) { // a formatted run after the item's first words
+					t2, f2 := mk("list", true)
+					lp.AddFormattedText(" "+t2.text, f2)
+					toks = append(toks, t2)
+				}
 			}
 			blocks = append(blocks, "list")
 		case k == 9:
@@ -180,7 +196,17 @@ func c20Doc(r *rng.R, allowMeta bool, keepTight int, boundaries map[string]int, 
 					toks = append(toks, t)
 				}
 			}
-			d.AddTable(&document.TableConfig{Rows: rows, Cols: cols, Width: 6000, Data: data})
+			tb, _ := d.AddTable(&document.TableConfig{Rows: rows, Cols: cols, Width: 6000, Data: data})
+			if tb != nil && rows > 1 && r.Chance(1, 3) {
+				// a formatted run in a body cell
+				t2, f2 := mk("cell", true)
+				cr, cc := r.Range(1, rows-1), r.Intn(cols)
+				if tb.AddCellFormattedText(cr, cc, " "+t2.text, f2) == nil {
+					// the new run follows the text of its cell: the ledger keeps body order
+					at := len(toks) - rows*cols + cr*cols + cc + 1
+					toks = append(toks[:at], append([]xTok{t2}, toks[at:]...)...)
+				}
+			}
 			blocks = append(blocks, "table")
 		case k == 10:
 			d.AddParagraph("")
